@@ -378,6 +378,11 @@ package block
 //@   crash_inv [taken-batch-kept] rb && rb.res1 == nil ==> m.store.has[old(m.store.height) + 1] && m.store.txsAt[old(m.store.height) + 1] == TxsId(rb.res0.Batch.Transactions)
 //@   crash_inv [height-not-ahead] m.store.hasState && m.store.height <= m.store.stateAt.lastBlockHeight
 //@   crash_inv [state-has-block] m.store.stateAt.lastBlockHeight > old(m.store.height) ==> m.store.has[m.store.stateAt.lastBlockHeight]
+// ... and that block is the finished one - the header signed by the proposer for exactly this header - not the
+// draft saved before execution: a restart takes a block at the state's height for committed
+//@   crash_inv [state-has-finished-block] m.store.stateAt.lastBlockHeight > old(m.store.height) ==>
+//@                       m.store.hdrAt[m.store.stateAt.lastBlockHeight].proposer == m.store.signerAddrAt[m.store.stateAt.lastBlockHeight]
+//@                       && Signed(pkraw(m.store.signerKeyAt[m.store.stateAt.lastBlockHeight]), Payload(m.store.hdrAt[m.store.stateAt.lastBlockHeight]), m.store.hsigAt[m.store.stateAt.lastBlockHeight])
 
 // ---- helpers without effect on modelled state (metrics, signals) -------------------------
 // Verified for their frame: they change nothing that any contract speaks about.
@@ -472,6 +477,7 @@ package block
 //@   observe si := call SetItem
 //@   observe ss := call SetSeen
 //@   observe sig := call sendNonBlockingSignalWithMetrics
+//@   observe di := call DeleteItem
 //@   modifies m.lastState, m.headerCache.itemAt, m.headerCache.seen, m.dataCache.itemAt, m.dataCache.seen,
 //@            durable m.store.height, durable m.store.stateAt, durable m.store.hasState,
 //@            durable m.store.has, durable m.store.hdrAt, durable m.store.hsigAt, durable m.store.signerAddrAt, durable m.store.signerKeyAt,
@@ -483,6 +489,9 @@ package block
 //@   loop 1 invariant [sync-after-caching] si.count > 0 ==> tsn.count == 1 && si.seq < tsn.seq
 //@   loop 1 invariant [seen-only-after-sync] ss.count <= 1 && (ss.count > 0 ==> tsn.count == 1 && tsn.res0 == nil && tsn.seq < ss.seq)
 //@   loop 1 invariant [ticks-signal] recvCount("daTicker.C") + recvCount("blockTicker.C") == 1 ==> sig.count >= 1 && tsn.count == 0 && si.count == 0
+// a cached part waits for its counterpart: the loop itself never takes anything out of the caches - that happens
+// only when the block has been applied (inside trySyncNextBlock)
+//@   loop 1 invariant [cached-parts-wait] di.count == 0
 //@   loop 1 invariant [monotone] m.store.height >= old(m.store.height)
 //@   ensures [monotone] m.store.height >= old(m.store.height)
 
@@ -597,6 +606,9 @@ package block
 //@   ensures [fresh-chain] err == nil && !old(store.hasState) && !store.faulty ==> s.LastBlockHeight == genesis.InitialHeight - 1 && s.InitialHeight == genesis.InitialHeight
 //@                       && store.has[genesis.InitialHeight] && store.hdrAt[genesis.InitialHeight].height == genesis.InitialHeight
 //@   ensures [restart] err == nil && old(store.hasState) && !store.faulty ==> StateOf(s) == store.stateAt && genesis.InitialHeight <= s.LastBlockHeight
+// a node that has applied at least its first block starts again on what it recorded: every recorded state at or
+// above the initial height is accepted (only a state below the genesis' initial height is refused)
+//@   ensures [starts-on-any-applied-state] old(store.hasState) && !store.faulty && old(store.stateAt.lastBlockHeight) >= genesis.InitialHeight ==> err == nil
 //@   ensures [state-untouched] store.hasState == old(store.hasState) && store.stateAt == old(store.stateAt) && store.height == old(store.height)
 
 // the configured payload provider reads the header, it does not change it (assumed)
@@ -760,9 +772,13 @@ package block
 //@   modifies m.headerCache.daInc, m.headerCache.daIncHas, m.dataCache.daInc, m.dataCache.daIncHas
 //@   ensures [nil-means-fetched] err == nil ==> fb && fb.res1 == nil && fb.arg2 == m.daHeight.v
 //@   ensures [future-returns-at-once] fb && fb.res1 != nil && msgHas(fb.res1, coreda.ErrHeightFromFuture) ==> err != nil
+// what a DA height holds never turns a successful fetch into a failure: whatever the blobs are, the height is done
+// (otherwise one blob anybody can post would keep the scan at that height for good)
+//@   ensures [fetched-means-done] fb && fb.res1 == nil ==> err == nil
 //@   ensures [cursor-untouched] m.daHeight.v == old(m.daHeight.v)
 //@   loop 1 invariant [same-height] daHeight == m.daHeight.v && m.daHeight.v == old(m.daHeight.v)
 //@   loop 1 invariant [err-accumulates] r >= 0 && (r > 0 ==> err != nil)
+//@   loop 1 overall [fetches-failed-so-far] fb ==> fb.res1 != nil
 //@   loop 2 invariant [each-blob] hph.count + hpd.count > 0 ==> len(bz) != 0 && hph.count == 1 && hph.arg2 == bz && hph.arg3 == daHeight
 //@                       && ((hpd.count == 1 && hpd.arg2 == bz && hpd.arg3 == daHeight) <==> !hph.res0) && hpd.count <= 1
 //@   loop 2 invariant [non-empty-handled] rangeindex >= 0 && rangeindex < len(blobsResp.Data) && len(blobsResp.Data[rangeindex]) != 0 ==> hph.count == 1
@@ -858,6 +874,7 @@ package block
 //@   observe gph := call getPending
 //@   observe sub := call submitHeadersToDA
 //@   observe ie := call isEmpty
+//@   observe slh := call setLastSubmittedHeaderHeight
 //@   modifies m.headerCache.daInc, m.headerCache.daIncHas, m.dataCache.daInc, m.dataCache.daIncHas,
 //@            m.pendingHeaders.base.lastHeight, m.pendingData.base.lastHeight, durable m.store.meta, durable m.store.metaHas
 // no lost wake-up: on every way round the loop the timer (or ticker) the loop waits on fires again
@@ -867,6 +884,7 @@ package block
 //@   loop 1 invariant [tick-checks-pending] recvCount("timer.C") == 1 ==> ie
 //@   loop 1 invariant [pending-is-loaded] ie && !ie.res0 ==> gph.count == 1
 //@   loop 1 invariant [checks-own-backlog] ie ==> ie.arg0 == m.pendingHeaders || ie.arg0 == m.pendingHeaders.base
+//@   loop 1 invariant [watermark-not-moved-here] slh.count == 0
 //@   loop 1 invariant [submit-exactly-pending] sub ==> gph && gph.res1 == nil && sub.arg2 == gph.res0
 //@   loop 1 invariant [submit-all-pending] gph && gph.res1 == nil && len(gph.res0) > 0 ==> sub
 //@   loop 1 invariant [once] sub.count <= 1
@@ -877,12 +895,16 @@ package block
 //@   observe cs := call createSignedDataToSubmit
 //@   observe sub := call submitDataToDA
 //@   observe ie := call isEmpty
+//@   observe slh := call setLastSubmittedDataHeight
 //@   modifies m.headerCache.daInc, m.headerCache.daIncHas, m.dataCache.daInc, m.dataCache.daIncHas,
 //@            m.pendingHeaders.base.lastHeight, m.pendingData.base.lastHeight, durable m.store.meta, durable m.store.metaHas
 //@   loop 1 invariant [wakes-up-again] armed(timer)
 //@   loop 1 invariant [tick-checks-pending] recvCount("timer.C") == 1 ==> ie
 //@   loop 1 invariant [pending-is-loaded] ie && !ie.res0 ==> cs.count == 1
 //@   loop 1 invariant [checks-own-backlog] ie ==> ie.arg0 == m.pendingData || ie.arg0 == m.pendingData.base
+// the loop itself never moves the watermark: that is done where acceptance is known (the post-submit callback) and
+// where only empty data is pending (createSignedDataToSubmit), each under its own contract
+//@   loop 1 invariant [watermark-not-moved-here] slh.count == 0
 //@   loop 1 invariant [submit-exactly-created] sub ==> cs && cs.res1 == nil && sub.arg2 == cs.res0
 //@   loop 1 invariant [submit-all-created] cs && cs.res1 == nil && len(cs.res0) > 0 ==> sub
 //@   loop 1 invariant [once] sub.count <= 1
